@@ -831,7 +831,11 @@ func (oc *orderChecker) keyRoutedSend(l *loopInfo, s *ssa.Send) bool {
 	if cal == nil || cal.Name() != "wrapFeatureForTileMatrix" || len(call.Call.Args) != 3 {
 		return false
 	}
-	return oc.derived(l, call.Call.Args[1], 0) == 2
+	_, ki, _ := wrapperParamRoles(cal)
+	if ki < 0 {
+		return false
+	}
+	return oc.derived(l, call.Call.Args[ki], 0) == 2
 }
 
 func (oc *orderChecker) checkCall(l *loopInfo, x *ssa.Call) {
